@@ -87,10 +87,10 @@ class Set(Container):
             # change after unpickling), so the elements are ordered to keep the representation deterministic:
             # primitives by their native value, anything else by its own representation.
             try:
-                ordered = sorted(self._value, key=lambda x: x.native_value)
+                strings = [str(x) for x in sorted(self._value, key=lambda x: x.native_value)]
             except (AttributeError, TypeError):
-                ordered = sorted(self._value, key=str)
-            return "{%s}" % ", ".join(map(str, ordered))  # This is recursive.
+                strings = sorted(map(str, self._value))  # This is recursive; each element is rendered once.
+            return "{%s}" % ", ".join(strings)
         except (AttributeError, TypeError):  # pragma: no cover
             return "Set(UNINITIALIZED)"
 
